@@ -142,7 +142,7 @@ def do_replay(path, extra_defines=()):
 def main():
     ap = argparse.ArgumentParser()
     ap.add_argument('prop', nargs='?'); ap.add_argument('--tier', default=os.environ.get('VERIF_TIER', 'quick'))
-    ap.add_argument('--job'); ap.add_argument('--replay'); ap.add_argument('--keep', action='store_true'); ap.add_argument('--all-jobs', action='store_true'); ap.add_argument('--define', action='append', default=[]); ap.add_argument('--no-evidence', action='store_true')
+    ap.add_argument('--job'); ap.add_argument('--replay'); ap.add_argument('--keep', action='store_true'); ap.add_argument('--all-jobs', action='store_true'); ap.add_argument('--define', action='append', default=[]); ap.add_argument('--no-evidence', action='store_true'); ap.add_argument('--merge-evidence', action='store_true', help='with --job a,b: replace / add the entries of these jobs in the existing evidence file (each entry is stamped with run_at)')
     a = ap.parse_args()
     if a.replay: sys.exit(do_replay(a.replay, a.define))
     prop = a.prop; tier = a.tier if a.tier in ('quick', 'thorough') else 'quick'
@@ -156,7 +156,7 @@ def main():
     try:
         builder = irbuild.Builder(scratch)
         for job in spec['jobs']:
-            if a.job and job['name'] != a.job: continue
+            if a.job and job['name'] not in a.job.split(','): continue
             if tier == 'quick' and job.get('thorough_only') and not a.all_jobs and not a.job: continue
             try:
                 r = run_job(prop, job, tier, builder, seed, log)
@@ -180,12 +180,12 @@ def main():
     elif any(r['status'] == 'internal' for _, r in results): rc = 3
     elif any(r['status'] == 'inconclusive' for _, r in results): rc = 2
     wall = time.time() - t0
-    if not a.no_evidence and not a.job:
-        write_evidence(prop, spec, tier, seed, results, wall, nviol, rc)
+    if not a.no_evidence and (not a.job or a.merge_evidence):
+        write_evidence(prop, spec, tier, seed, results, wall, nviol, rc, merge=bool(a.job and a.merge_evidence))
     log('[%s] exit %d  (%.1fs)' % (prop, rc, wall))
     sys.exit(rc)
 
-def write_evidence(prop, spec, tier, seed, results, wall, nviol, rc):
+def write_evidence(prop, spec, tier, seed, results, wall, nviol, rc, merge=False):
     states = trans = val = 0; samples = []; jobs = []; solver_q = 0; solver_t = 0.0; steps = 0; asserts = collections.Counter(); reached = collections.Counter()
     for job, r in results:
         ex = r.get('explore')
@@ -197,14 +197,31 @@ def write_evidence(prop, spec, tier, seed, results, wall, nviol, rc):
         jobs.append(dict(job=job['name'], harness='harness/' + job['harness'], defines=r['defines'], units_encoded=['src/%s.cc' % u for u in r['units']],
                          bounds=job.get(tier, {}).get('bounds', job.get('bounds', '')), paths=ex['paths'], pending=ex['pending'], ends=dict(ex['ends']), decisions=ex['decisions'],
                          ir_instructions_executed=ex['steps'], longest_path_instructions=ex['max_steps_path'], solver_queries=ex['solver_calls'], solver_time_s=round(ex['solver_time'], 2),
-                         explore_wall_s=round(ex['wall'], 1), build_s=r['build_s'], complete=ex['complete'], native_validated=r['validated'], status=r['status'], messages=r['messages'],
+                         explore_wall_s=round(ex['wall'], 1), run_at=time.strftime('%Y-%m-%dT%H:%M:%SZ', time.gmtime()), build_s=r['build_s'], complete=ex['complete'], native_validated=r['validated'], status=r['status'], messages=r['messages'],
                          known_findings_hit=[k['known'] for k in r['known_hits']], violations=[dict(assertion=v['assertion'], reproduced=v['reproduced'], vector=v['vector'][:60]) for v in r['violations']]))
+    merged_note = None
+    evpath = os.path.join(VERIF, 'evidence', prop + '.json')
+    if merge and os.path.exists(evpath):
+        # entries of the jobs run now replace the stored ones; the others are kept as stored (each produced by this program against /repo, see run_at), as long as the job still exists
+        old = json.load(open(evpath)); oc = old.get('coverage', {}); new_names = set(j['job'] for j in jobs)
+        current = set(j['name'] for j in spec['jobs'] if not (tier == 'quick' and j.get('thorough_only')))
+        kept = [j for j in oc.get('jobs', []) if j['job'] not in new_names and j['job'] in current]
+        jobs = kept + jobs
+        states = sum(j.get('paths', 0) for j in jobs); trans = sum(j.get('decisions', 0) for j in jobs); val = sum(j.get('native_validated', 0) for j in jobs)
+        solver_q = sum(j.get('solver_queries', 0) for j in jobs); solver_t = sum(j.get('solver_time_s', 0.0) for j in jobs); steps = sum(j.get('ir_instructions_executed', 0) for j in jobs)
+        samples = [x for x in oc.get('samples', []) if isinstance(x, dict) and x.get('job') not in new_names][:9] + samples
+        for k, v in oc.get('assertions_evaluated', {}).items(): asserts[k] = max(asserts.get(k, 0), v)
+        for k, v in oc.get('witnesses_reached', {}).items():
+            if k.split(':')[0] not in new_names: reached[k] = v
+        rc = max(rc, int(oc.get('exit_code', 0) or 0)); nviol = nviol + int(old.get('violations', 0) or 0); wall = wall + float(old.get('wall_s', 0) or 0)
+        merged_note = 'job entries were produced by separate runs of this check (see run_at per job; entries without run_at are from the last full run); wall_s is the sum over those runs'
     ev = dict(property_id=prop, tier=tier, seed=seed, level='model_checking',
               coverage=dict(states=max(states, 0), transitions=max(trans, 0), traces_validated_against_impl=val, samples=samples[:12] or [dict(note='no path completed')],
                             exhaustive=all(j.get('complete') for j in jobs), explanation='bounded symbolic execution of the LLVM IR clang-14 produces from /repo/src (engine/symex.py + z3): states = paths explored to completion (each stands for every input satisfying its path condition), transitions = solver-decided symbolic decisions, traces_validated = sampled paths whose solver-produced concrete vector was re-run through the natively compiled (g++) harness + real sources with identical observations',
                             jobs=jobs, assertions_evaluated=dict(asserts), witnesses_reached=dict(reached), solver_queries=solver_q, solver_time_s=round(solver_t, 2), ir_instructions_executed=steps,
                             exit_code=rc),
               assumptions=spec.get('assumptions', []), wall_s=round(wall, 1), violations=nviol)
+    if merged_note: ev['coverage']['merged'] = merged_note
     os.makedirs(os.path.join(VERIF, 'evidence'), exist_ok=True)
     json.dump(ev, open(os.path.join(VERIF, 'evidence', prop + '.json'), 'w'), indent=1, default=str)
 
